@@ -1,12 +1,34 @@
 import Pyrtma.Props.EmitTables
 import Pyrtma.Gen.CorePy
+import Pyrtma.Proofs.Combined
+import Pyrtma.Proofs.Paths
 /-!
 # C16 — deterministic compilation; combined-YAML round trip; the shipped core definitions are current
 
-Proof-level content: `core_py_current` (both sides regenerated from the working tree on every run and compared by
-kernel evaluation) and the section-order theorem about the combined file.  Determinism itself ("same bytes twice,
-from any working or output directory") is a property of CPython dict order, `cwd` handling and `black`, not of a
-Lean function (which is deterministic by construction): it is decided on the implementation by the harness.
+Proof-level content
+* `core_py_current` — both sides regenerated from the working tree on every run, compared by kernel evaluation;
+* the combined YAML (`Model/Combined.lean` = the writer `YAMLCompiler.generate` over `Parser.yaml_dict`, and the order in
+  which `parse_text` reads the sections back; proofs in `Proofs/Combined.lean`):
+  `combined_yaml_roundtrip(_gen)` — **full strength**: every closure (any number of files, imports flattened, reserved
+  ids / ranges as expanded ids, constants and lengths as already-expanded values, alias chains, field-list reuse) that
+  parses, has distinct names and no forward reference re-parses from its combined file to the same registry
+  (`Sim`: everything equal in order, messages / message ids up to the position of the merged `_RESERVED_` block, core
+  marks cleared); `combined_yaml_same_signatures` spells that out as ids / hashes / sizes / field lists;
+  `forward_ref_never_reparses` and `reparse_fails_iff_forward_ref` — `noFwdRef` (decidable) is *exactly* the class
+  outside the open finding C16-F2.
+* determinism (`Model/Paths.lean` = the path arithmetic of `Parser.parse / parse_file / trim_root` and the one place
+  where the environment reaches the outputs: `src` → `type_source` and the `core_defs` mark; proofs in `Proofs/Paths.lean`):
+  `compile_deterministic` — the outputs of `compileRun` do not depend on the working directory, on how the root path is
+  spelled, or on the output directory; `source_independent_of_cwd`; `outputs_ignore_location` — the Python / JavaScript /
+  MATLAB programs and the combined YAML are functions of the ordered items only (registries are insertion-ordered
+  lists); a kernel-checked counterexample shows the statement fails for the variant that stores `root_path` unresolved
+  (the seeded change `seeded/C16c`).  No clock is an input of the model: the outputs carry a version string, no time.
+Decided on the implementation every run: that the real combined file is the model's (`CORR combined.yaml`: canonical
+lines of the real file, read with ruamel, against `combinedSections`), that the real re-parse gives what
+`elaborate (combine fs)` gives (`CORR combined.reparse`, registries line by line, errors included), that the `core` marks
+and every `type_source` of the real Python output are what the path model derives from the resolved file paths in each
+of the three environments the compiler is really run in (`CORR paths.core / paths.source`), and the byte comparison
+of those three compiles (another working directory, relative spellings, another output directory).
 -/
 namespace Pyrtma.C16
 open Pyrtma.Emit Pyrtma.Emit.Inst Pyrtma.Gen
@@ -24,53 +46,191 @@ def corePyCheck : Bool :=
 `core_defs.yaml` / `data_logger.yaml` / `quick_logger.yaml`. -/
 theorem core_py_current : corePyCheck = true := by decide +kernel
 
-/-! ### the combined YAML
+/-! ### the combined YAML (`Model/Combined.lean`: writer = `combinedSections`, reader = `readSections`)
 
-Full statement (`combined_yaml_roundtrip`): `elaborate T ap items {} = .ok R → sectionsOrdered R →
-∃ R', elaborate T ap (combine items) {} = .ok R' ∧ R'.sig = R.sig` where `sectionsOrdered` = no alias targets a struct
-and no struct contains a message (outside it the re-parse fails: open finding C16-F2, demonstrated by the harness).
-Proved: the combined file presents the items section by section (`combine`), and for a closure that is already
-in section order — every single-file closure — the re-parse reads the *same item sequence* (so the same registry up
-to the "came from core_defs/" flag, which the combined file does not carry).  Missing: commuting independent items
-across sections for multi-file closures; the harness re-parses the real combined file of every generated closure. -/
+`combine fs = readSections (combinedSections fs)` is the item sequence a re-parse of `<name>_combined.yaml` elaborates:
+the files' sections merged per kind, read back in the parser's fixed order, the `_RESERVED_` blocks of all files
+merged where the first one stood, nothing marked as core.  Hypotheses: the closure parses; the alias / struct / message
+names are pairwise distinct (enforced by `Parser.check_duplicate_name`, property C12 — not part of M9, hence a
+hypothesis here; the driver evaluates it on every case); `noFwdRef` (decidable, `Spec/Emit.lean`). -/
 
-theorem filter_sec_self {l : List (Bool × Item)} {i : Nat} (h : ∀ x ∈ l, x.2.section = i) :
-    l.filter (fun x => x.2.section == i) = l := by
-  apply List.filter_eq_self.mpr; intro x hx; simp [h x hx]
+theorem tables_ct : TablesCt tables := by unfold TablesCt; decide +kernel
 
-theorem filter_sec_nil {l : List (Bool × Item)} {i j : Nat} (h : ∀ x ∈ l, x.2.section = i) (hij : i ≠ j) :
-    l.filter (fun x => x.2.section == j) = [] := by
-  apply List.filter_eq_nil_iff.mpr; intro x hx; simp [h x hx, hij]
+/-- **`combined_yaml_roundtrip`** (full strength, any tables whose parser ctypes map is total).  If the closure `fs`
+(any number of files, imports flattened in parse order, any mix of sections per file, reserved ids anywhere in
+`message_defs`) parses to `R`, has distinct names and no forward reference, then its combined file parses, to a registry
+`R'` with `Sim R.unc R'`: the same constants, string constants, aliases, host ids, module ids and structs — same order,
+same values, same resolved targets, same sizes, alignments, hashes and field lists — and the same messages and
+message ids (`List.Perm`: the merged `_RESERVED_` block may stand elsewhere; every look-up by name agrees), all with
+the "came from core_defs/" mark cleared. -/
+theorem combined_yaml_roundtrip_gen {T : Tables} (hC : TablesCt T) (ap : Bool) (fs : List FileItems) (R : Reg)
+    (h : elaborate T ap (flattenFiles fs) {} = .ok R) (hnd : (defNames (flattenFiles fs)).Nodup)
+    (hfw : noFwdRef T (flattenFiles fs) = true) :
+    ∃ R', elaborate T ap (combine fs) {} = .ok R' ∧ Sim R.unc R' :=
+  combined_roundtrip hC ap fs R h hnd hfw
 
-/-- **`combined_yaml_roundtrip_partial`.**  A closure whose items are already grouped in section order (constants,
-string constants, aliases, host ids, module ids, structs, messages — e.g. any single file) is presented to the
-re-parse in exactly the same order. -/
-theorem combined_yaml_roundtrip_partial (l0 l1 l2 l3 l4 l5 l6 : List (Bool × Item))
-    (h0 : ∀ x ∈ l0, x.2.section = 0) (h1 : ∀ x ∈ l1, x.2.section = 1) (h2 : ∀ x ∈ l2, x.2.section = 2)
-    (h3 : ∀ x ∈ l3, x.2.section = 3) (h4 : ∀ x ∈ l4, x.2.section = 4) (h5 : ∀ x ∈ l5, x.2.section = 5)
-    (h6 : ∀ x ∈ l6, x.2.section = 6) :
-    (combine (l0 ++ l1 ++ l2 ++ l3 ++ l4 ++ l5 ++ l6)).map (·.2) = (l0 ++ l1 ++ l2 ++ l3 ++ l4 ++ l5 ++ l6).map (·.2) := by
-  unfold combine
-  simp only [List.map, List.filter_append,
-    filter_sec_self h0, filter_sec_self h1, filter_sec_self h2, filter_sec_self h3, filter_sec_self h4,
-    filter_sec_self h5, filter_sec_self h6,
-    filter_sec_nil h0 (by decide : (0:Nat) ≠ 1), filter_sec_nil h0 (by decide : (0:Nat) ≠ 2), filter_sec_nil h0 (by decide : (0:Nat) ≠ 3),
-    filter_sec_nil h0 (by decide : (0:Nat) ≠ 4), filter_sec_nil h0 (by decide : (0:Nat) ≠ 5), filter_sec_nil h0 (by decide : (0:Nat) ≠ 6),
-    filter_sec_nil h1 (by decide : (1:Nat) ≠ 0), filter_sec_nil h1 (by decide : (1:Nat) ≠ 2), filter_sec_nil h1 (by decide : (1:Nat) ≠ 3),
-    filter_sec_nil h1 (by decide : (1:Nat) ≠ 4), filter_sec_nil h1 (by decide : (1:Nat) ≠ 5), filter_sec_nil h1 (by decide : (1:Nat) ≠ 6),
-    filter_sec_nil h2 (by decide : (2:Nat) ≠ 0), filter_sec_nil h2 (by decide : (2:Nat) ≠ 1), filter_sec_nil h2 (by decide : (2:Nat) ≠ 3),
-    filter_sec_nil h2 (by decide : (2:Nat) ≠ 4), filter_sec_nil h2 (by decide : (2:Nat) ≠ 5), filter_sec_nil h2 (by decide : (2:Nat) ≠ 6),
-    filter_sec_nil h3 (by decide : (3:Nat) ≠ 0), filter_sec_nil h3 (by decide : (3:Nat) ≠ 1), filter_sec_nil h3 (by decide : (3:Nat) ≠ 2),
-    filter_sec_nil h3 (by decide : (3:Nat) ≠ 4), filter_sec_nil h3 (by decide : (3:Nat) ≠ 5), filter_sec_nil h3 (by decide : (3:Nat) ≠ 6),
-    filter_sec_nil h4 (by decide : (4:Nat) ≠ 0), filter_sec_nil h4 (by decide : (4:Nat) ≠ 1), filter_sec_nil h4 (by decide : (4:Nat) ≠ 2),
-    filter_sec_nil h4 (by decide : (4:Nat) ≠ 3), filter_sec_nil h4 (by decide : (4:Nat) ≠ 5), filter_sec_nil h4 (by decide : (4:Nat) ≠ 6),
-    filter_sec_nil h5 (by decide : (5:Nat) ≠ 0), filter_sec_nil h5 (by decide : (5:Nat) ≠ 1), filter_sec_nil h5 (by decide : (5:Nat) ≠ 2),
-    filter_sec_nil h5 (by decide : (5:Nat) ≠ 3), filter_sec_nil h5 (by decide : (5:Nat) ≠ 4), filter_sec_nil h5 (by decide : (5:Nat) ≠ 6),
-    filter_sec_nil h6 (by decide : (6:Nat) ≠ 0), filter_sec_nil h6 (by decide : (6:Nat) ≠ 1), filter_sec_nil h6 (by decide : (6:Nat) ≠ 2),
-    filter_sec_nil h6 (by decide : (6:Nat) ≠ 3), filter_sec_nil h6 (by decide : (6:Nat) ≠ 4), filter_sec_nil h6 (by decide : (6:Nat) ≠ 5)]
-  simp [List.map_append, List.map_map, Function.comp_def]
+/-- the same for the tables of the working tree -/
+theorem combined_yaml_roundtrip (ap : Bool) (fs : List FileItems) (R : Reg)
+    (h : elaborate tables ap (flattenFiles fs) {} = .ok R) (hnd : (defNames (flattenFiles fs)).Nodup)
+    (hfw : noFwdRef tables (flattenFiles fs) = true) :
+    ∃ R', elaborate tables ap (combine fs) {} = .ok R' ∧ Sim R.unc R' :=
+  combined_roundtrip tables_ct ap fs R h hnd hfw
+
+/-- what `Sim` says about ids, hashes, sizes and layouts, spelled out: every definition of the original registry is
+a definition of the re-parsed one with the same id, hash, size, alignment and field list, and vice versa -/
+theorem combined_yaml_same_signatures (ap : Bool) (fs : List FileItems) (R : Reg)
+    (h : elaborate tables ap (flattenFiles fs) {} = .ok R) (hnd : (defNames (flattenFiles fs)).Nodup)
+    (hfw : noFwdRef tables (flattenFiles fs) = true) :
+    ∃ R', elaborate tables ap (combine fs) {} = .ok R' ∧
+      R'.structs.map DefR.sig = R.structs.map DefR.sig ∧
+      (∀ s, s ∈ R'.msgs.map DefR.sig ↔ s ∈ R.msgs.map DefR.sig) ∧
+      (∀ n id, (∃ c, (n, id, c) ∈ R'.msgIds) ↔ (∃ c, (n, id, c) ∈ R.msgIds)) ∧
+      R'.aliases.map (fun a => (a.name, a.target, a.isStruct, a.align, a.esize)) =
+        R.aliases.map (fun a => (a.name, a.target, a.isStruct, a.align, a.esize)) ∧
+      R'.consts.map (fun c => (c.1, c.2.1)) = R.consts.map (fun c => (c.1, c.2.1)) ∧
+      R'.strs.map (fun c => (c.1, c.2.1)) = R.strs.map (fun c => (c.1, c.2.1)) ∧
+      R'.hosts.map (fun c => (c.1, c.2.1)) = R.hosts.map (fun c => (c.1, c.2.1)) ∧
+      R'.mods.map (fun c => (c.1, c.2.1)) = R.mods.map (fun c => (c.1, c.2.1)) := by
+  obtain ⟨R', hr, hs⟩ := combined_roundtrip tables_ct ap fs R h hnd hfw
+  refine ⟨R', hr, ?_, ?_, ?_, ?_, ?_, ?_, ?_, ?_⟩
+  · rw [← hs.structs]; simp [Reg.unc, List.map_map, Function.comp_def, DefR.sig, DefR.unc]
+  · intro s
+    have hp := (hs.msgs.map DefR.sig).mem_iff (a := s)
+    rw [← hp]; simp [Reg.unc, List.map_map, Function.comp_def, DefR.sig, DefR.unc]
+  · intro n id
+    constructor
+    · rintro ⟨c, hc⟩
+      have := hs.msgIds.mem_iff.mpr hc
+      simp only [Reg.unc, List.mem_map] at this
+      obtain ⟨x, hx, he⟩ := this
+      simp only [Prod.mk.injEq] at he
+      exact ⟨x.2.2, by rw [← he.1, ← he.2.1]; exact hx⟩
+    · rintro ⟨c, hc⟩
+      refine ⟨false, hs.msgIds.mem_iff.mp ?_⟩
+      simp only [Reg.unc, List.mem_map]
+      exact ⟨(n, id, c), hc, rfl⟩
+  · rw [← hs.aliases]; simp [Reg.unc, List.map_map, Function.comp_def, AliasR.unc]
+  · rw [← hs.consts]; simp [Reg.unc, List.map_map, Function.comp_def]
+  · rw [← hs.strs]; simp [Reg.unc, List.map_map, Function.comp_def]
+  · rw [← hs.hosts]; simp [Reg.unc, List.map_map, Function.comp_def]
+  · rw [← hs.mods]; simp [Reg.unc, List.map_map, Function.comp_def]
+
+/-- **`forward_ref_never_reparses`** (open finding C16-F2, the negative half).  With distinct names, a closure in which
+some item refers to a name that an item of a later section defines — an alias whose target is a struct, a struct with
+a message-typed field or a message as `fields:` source — has a combined file that the parser refuses. -/
+theorem forward_ref_never_reparses (ap : Bool) (fs : List FileItems)
+    (hnd : (defNames (flattenFiles fs)).Nodup) (hfw : noFwdRef tables (flattenFiles fs) = false) (Q : Reg) :
+    elaborate tables ap (combine fs) {} ≠ .ok Q :=
+  combined_fails_of_fwd ap fs hnd hfw Q
+
+/-- **`reparse_fails_iff_forward_ref`**: `noFwdRef` is *exactly* the class outside C16-F2 — for a closure that parses
+(distinct names), the re-parse of the combined file fails iff the closure has a forward reference. -/
+theorem reparse_fails_iff_forward_ref (ap : Bool) (fs : List FileItems) (R : Reg)
+    (h : elaborate tables ap (flattenFiles fs) {} = .ok R) (hnd : (defNames (flattenFiles fs)).Nodup) :
+    (∃ e, elaborate tables ap (combine fs) {} = .error e) ↔ noFwdRef tables (flattenFiles fs) = false :=
+  combined_fails_iff tables_ct ap fs R h hnd
+
+/-! ### determinism (`Model/Paths.lean`: the path arithmetic of `Parser.parse / parse_file / trim_root`)
+
+In Lean `compileRun` is a function, so "same inputs, same outputs" is `rfl`; the content is in *what counts as input*.
+The model gives `compile()` the environment the code reads — working directory, spelling of the root path, output
+directory — and lets it reach the outputs the way the code does (`root_path`, `chdir` per file, `os.path.relpath`
+evaluated in whatever the working directory is at that moment, `src.parent.stem == "core_defs"`).  The theorems say
+that the environment cancels out; the registries being insertion-ordered lists (Python dicts), the programs are
+functions of their ordered content, and for Python / JavaScript / MATLAB of nothing else. -/
+
+/-- **`compile_deterministic`.**  Same files, any two working directories, any two spellings of the root path that
+name the same file (absolute, relative, through `..`), any two output directories: same outcome, same four programs,
+same `type_source` strings, same combined YAML. -/
+theorem compile_deterministic (ap : Bool) (k : Nat) (d : Disk) {e1 e2 : Env} {f1 f2 : Nat}
+    (h1 : e1.root.segs.getLast? = some (.name f1)) (h2 : e2.root.segs.getLast? = some (.name f2))
+    (h : e1.rootFile = e2.rootFile) : compileRun tables ap k e1 d = compileRun tables ap k e2 d :=
+  compile_env_irrelevant tables ap k d h1 h2 h
+
+/-- `trim_root` with the resolved `root_path` the code stores is plain `relpath` of two resolved paths: it does not
+depend on the working directory in which `os.path.relpath` is evaluated (the parser changes it for every file) -/
+theorem source_independent_of_cwd (cwd root file : AbsPath) :
+    relpath cwd (absSpelled file) (absSpelled root) = relAbs file root := relpath_abs cwd file root
+
+/-- **`outputs_ignore_location`.**  The Python, JavaScript and MATLAB programs, the outcome and the combined YAML are
+functions of the items file by file in parse order — not of where the files live or of which of them count as core. -/
+theorem outputs_ignore_location (ap : Bool) (fs1 fs2 : List FileItems) (h : fs1.map (·.items) = fs2.map (·.items)) :
+    (match elaborate tables ap (flattenFiles fs1) {}, elaborate tables ap (flattenFiles fs2) {} with
+     | .ok R1, .ok R2 => emitPy tables R1 = emitPy tables R2 ∧ emitJs tables R1 = emitJs tables R2 ∧
+                          emitM tables R1 = emitM tables R2
+     | .error e1, .error e2 => e1 = e2
+     | _, _ => False) ∧ combinedSections fs1 = combinedSections fs2 :=
+  relocation_irrelevant tables_ct ap fs1 fs2 h
 
 /-! ### Non-vacuity -/
+
+
+/-- two files: the imported one with a constant, an alias, a struct, a message and two reserved ids; the importer with
+an alias of that alias, a host id, a struct re-using the imported struct's fields, a signal, a message nesting the imported
+message, and one more reserved id -/
+def rtFiles : List FileItems :=
+  [{ core := true, items :=
+      [.const 600 (.int 4), .alias 601 (idOf "int16"),
+       .struct 602 11 (.list [(603, 601, none), (604, idOf "uint8", some 2)]),
+       .message 605 2001 12 (.list [(606, 602, some 2)]), .reserved 607 2005 1, .reserved 608 2006 2] },
+   { core := false, items :=
+      [.const 610 (.int 7), .alias 611 601, .hostId 612 5, .struct 613 13 (.reuse 602),
+       .signal 614 2002 14, .message 615 2003 15 (.list [(616, 605, none), (617, 611, none)]), .reserved 618 2007 3] }]
+
+/-- the hypotheses of `combined_yaml_roundtrip` hold for it, the combined order is a different item sequence, and the
+re-parse yields the messages in a different order (the merged `_RESERVED_` block moved) but the same set -/
+example :
+    (match elaborate tables true (flattenFiles rtFiles) {}, elaborate tables true (combine rtFiles) {} with
+     | .ok R, .ok R' =>
+       decide ((defNames (flattenFiles rtFiles)).Nodup) && noFwdRef tables (flattenFiles rtFiles) &&
+       ((combine rtFiles).map (·.2) != (flattenFiles rtFiles).map (·.2)) &&
+       (R'.msgs.map (·.name) != R.msgs.map (·.name)) &&
+       (R'.msgs.map (·.name) == [605, 607, 608, 618, 614, 615]) && (R.msgs.map (·.name) == [605, 607, 608, 614, 615, 618]) &&
+       (R'.structs.map DefR.sig == R.structs.map DefR.sig) && (R.structs.map (·.size) == [4, 4]) &&
+       (R.aliases.length == 2)
+     | _, _ => false) = true := by decide +kernel
+
+/-- C16-F2 witnesses: an alias of an imported struct / a struct containing an imported message parse, have a forward
+reference, and their combined files do not re-parse -/
+example :
+    ([ [{ core := false, items := [.struct 500 1 (.list [(501, idOf "uint8", none), (502, idOf "int32", none)])] },
+        { core := false, items := [.alias 503 500, .struct 504 2 (.list [(505, 503, none)])] }],
+       [{ core := false, items := [.message 500 1801 1 (.list [(501, idOf "double", none)])] },
+        { core := false, items := [.struct 502 2 (.list [(503, 500, none)]), .message 504 1800 3 (.list [(505, 502, none)])] }],
+       [{ core := false, items := [.message 500 1801 1 (.list [(501, idOf "double", none)])] },
+        { core := false, items := [.struct 502 2 (.reuse 500)] }] ] : List (List FileItems)).map
+      (fun fs => (match elaborate tables true (flattenFiles fs) {} with | .ok _ => true | .error _ => false,
+                  decide ((defNames (flattenFiles fs)).Nodup), noFwdRef tables (flattenFiles fs),
+                  match elaborate tables true (combine fs) {} with | .ok _ => true | .error _ => false))
+    = [(true, true, false, false), (true, true, false, false), (true, true, false, false)] := by decide +kernel
+
+
+/-- a closure on disk: `/w/src/a.yaml` (root) imports `sub/b.yaml`, which imports `../c.yaml`; the package lives in `/p` -/
+def detDisk : Disk :=
+  { pkgDir := [900], coreFiles := [],
+    files := [([901, 902, 905], [.struct 700 1 (.list [(701, idOf "int32", none)])]),                 -- /w/src/c.yaml
+              ([901, 902, 903, 904], [.struct 702 2 (.list [(703, 700, none), (704, idOf "int32", none)])]),  -- /w/src/sub/b.yaml
+              ([901, 902, 906], [.message 705 1500 3 (.list [(706, 702, none)])])] }                  -- /w/src/a.yaml
+
+/-- absolute path from `/`; `../src/a.yaml` from `/w/elsewhere`; `src/a.yaml` from `/w`; `./x/../a.yaml` from `/w/src` -/
+def detEnvs : List Env :=
+  [{ cwd := [], root := ⟨true, [.name 901, .name 902, .name 906]⟩, outDir := ⟨true, [.name 910]⟩ },
+   { cwd := [901, 911], root := ⟨false, [.up, .name 902, .name 906]⟩, outDir := ⟨false, [.name 912]⟩ },
+   { cwd := [901], root := ⟨false, [.name 902, .name 906]⟩, outDir := ⟨false, []⟩ },
+   { cwd := [901, 902], root := ⟨false, [.cur, .name 913, .up, .name 906]⟩, outDir := ⟨false, [.up]⟩ }]
+
+/-- non-vacuity of `compile_deterministic`: the four environments resolve to the same root file, the run succeeds,
+and the sources are the relative paths `c.yaml`, `sub/b.yaml`, `a.yaml` -/
+example : detEnvs.all (fun e => e.rootFile == [901, 902, 906] &&
+      (compileRun tables true 999 e detDisk).outcome == none &&
+      (compileRun tables true 999 e detDisk).sources ==
+        [(700, [.name 905]), (702, [.name 903, .name 904]), (705, [.name 906])]) = true := by decide +kernel
+
+/-- the statement is not true of every way of writing the code: with `root_path = defs_path.parent` stored as spelled
+(the seeded change `seeded/C16c`) the same four environments give different `type_source` strings — `relpath` then
+resolves the stored relative path against the working directory of the moment (the directory of the file in hand) -/
+example : (detEnvs.map (fun e => (compileWith storedRootUnresolved tables true 999 e detDisk).sources)).eraseDups.length > 1 := by
+  decide +kernel
 
 /-- the core registry is not trivial: 3 files, more than 50 messages -/
 example : (match elaborate tables true CoreYaml.items {} with
